@@ -182,6 +182,16 @@ CHECKS = {
             "per-phase balance at a bus with a delta element in an unbalanced network is not required (only the three-phase sum); vector groups "
             "outside {Dyn, YNyn, Yzn} only bound on accept/reject; nodal tolerance 100 micro-MW",
             "TLC-enumerated configurations run on runpp_3ph/runpp; relations decided by TLC on fixed-point observations", "§5 C11"),
+    "C18": ("exploration",
+            "ShortCircuitDef.tla transcribes the decision functions behind the IEC 60909 results (voltage factor table, when current sources "
+            "contribute, which rows are reported, which calls are supported) and the option cube; ShortCircuit.tla's states are the PAIRS of "
+            "runs that must agree (a canonical run and one varied dimension: 3ph->2ph, sn_mva, inverse_y, faulted bus subset) for every "
+            "configuration (gen, sgen, ring, case, ip mode, branch results); every state is executed with calc_sc and TLC decides, in squared / "
+            "cross-multiplied multi-limb arithmetic (Wide.tla): 3 ikss^2 (rk^2 + xk^2) = c^2 Un^2, skss^2 = 3 Un^2 ikss^2 (3ph), 4 ikss_2ph^2 = "
+            "3 ikss_3ph^2, the ip bounds, and equality of bus and branch results across sn_mva, inverse_y and the faulted-bus subset.",
+            "the clause 'Thevenin impedance equals an independently built network' is NOT decided (needs complex network reduction); 1ph with "
+            "a gen excluded as unsupported; relations 1e-5 relative, cross-run equality 1e-6 relative",
+            "TLC-enumerated run pairs executed with calc_sc; IEC relations decided by TLC in multi-limb integer arithmetic", "§5 C18"),
 }
 
 NOT_APPLICABLE = {
